@@ -59,3 +59,27 @@ def obv(close, volume):
 
 def true_range(h, l, c, j):
     return max(h[j] - l[j], abs(h[j] - c[j - 1]), abs(l[j] - c[j - 1]))
+
+
+def rsi_wilder(x, p):
+    """Wilder's RSI: average gain / loss over the first p changes, then smoothed with factor 1/p;
+    RSI = 100 when the average loss is 0, else 100 - 100 / (1 + avg_gain / avg_loss); undefined before index p"""
+    n = len(x)
+    out = [nan for _ in range(n)]
+    if n < p + 1:
+        return out
+    ag = 0
+    al = 0
+    for i in range(p):
+        ch = x[i + 1] - x[i]
+        ag = ag + (ch if ch > 0 else 0)
+        al = al + (-ch if ch < 0 else 0)
+    ag = ag / p
+    al = al / p
+    out[p] = 100 if al == 0 else 100 - 100 / (1 + ag / al)
+    for i in range(p, n - 1):
+        ch = x[i + 1] - x[i]
+        ag = (ag * (p - 1) + (ch if ch > 0 else 0)) / p
+        al = (al * (p - 1) + (-ch if ch < 0 else 0)) / p
+        out[i + 1] = 100 if al == 0 else 100 - 100 / (1 + ag / al)
+    return out
